@@ -15,6 +15,7 @@ const (
 	expiryDeviation  = 0.05
 	defaultCacheName = "proc"
 	slots            = 300
+	wheelInterval    = time.Second
 )
 
 var emptyLruCache = emptyLru{}
@@ -56,7 +57,7 @@ func NewCache(expire time.Duration, opts ...CacheOption) (*Cache, error) {
 	}
 	cache.stats = newCacheStat(cache.name, cache.size)
 
-	timingWheel, err := NewTimingWheel(time.Second, slots, func(key, val any) {
+	timingWheel, err := NewTimingWheel(wheelInterval, slots, func(key, val any) {
 		k, ok := key.(string)
 		if !ok {
 			return
@@ -108,6 +109,10 @@ func (c *Cache) SetWithExpire(key string, value any, expire time.Duration) {
 
 	expiry := c.unstableExpiry.AroundDuration(expire)
 	if ok {
+		// 延迟小于一个滴答时 MoveTimer 会立即执行回调（即删掉刚写入的值）；与新键一样至少保留一个滴答
+		if expiry < wheelInterval {
+			expiry = wheelInterval
+		}
 		c.timingWheel.MoveTimer(key, expiry)
 	} else {
 		c.timingWheel.SetTimer(key, value, expiry)
